@@ -267,6 +267,12 @@ pub fn pinned(prop: &str) -> Vec<SProg> {
             v.push(sp(vec![vec![Lock(0), CellW(0), Unlock(0)], vec![Lock(0), CellW(0), Unlock(0)]]));
             v.push(sp(vec![vec![Write, CellW(0), RwUnlock], vec![Read, CellR(0), RwUnlock], vec![Read, CellR(0), RwUnlock]]));
             v.push(sp(vec![vec![TryLock(0), Unlock(0)], vec![Lock(0), AStore(0, 1), Unlock(0)]]));
+            // two read guards in one thread (the second taken with try_read, the first dropped afterwards): the thread is a
+            // reader throughout, no writer gets in
+            v.push(sp(vec![vec![TryRead, TryReadNested, RwUnlock]]));
+            v.push(sp(vec![vec![Read, TryReadNested, ALoad(0), RwUnlock, Join(1)], vec![TryWrite, AStore(0, 1), RwUnlock]]));
+            v.push(sp(vec![vec![Read, TryReadNested, CellR(0), RwUnlock, Join(1)], vec![Write, CellW(0), RwUnlock]]));
+            v.push(sp(vec![vec![Read, TryReadNested, TryReadNested, RwUnlock, Join(1), Join(2)], vec![TryWrite, RwUnlock], vec![Read, TryReadNested, RwUnlock]]));
             // the unlock inside Condvar::wait is a release like any other: what the waiter wrote in the critical section
             // that ends with the wait is visible to the next owner
             for note in [NotifyOne, NotifyAll] {
